@@ -5,7 +5,7 @@
   operations, what is held there; the theorems below read the bound off that table,
   for every reachable configuration of every program family under every schedule.
 -/
-import Gobptree.Proofs.ConcReach
+import Gobptree.Proofs.ConcOwner
 
 namespace Gobptree.Conc
 open Gobptree
@@ -62,6 +62,38 @@ theorem C10_resting_cursor (P : Params K) (tree : Tree K V) (progs : List (List 
   unfold cursorLocks
   split <;> simp
 
+/-- continuations that wait for the sibling just created by a split -/
+def Kont.waitsForFreshSibling : Kont K V → Bool
+  | .upRootSib _ _ _ _ _ | .upSib _ _ _ _ _ _ => true
+  | _ => false
+
+/-- **C10 (inside a step).** A step of Search/NewScanner/Insert/Update acquires exactly the
+    mutex it was waiting for and from then on only RELEASES (`RelOnly`): the held set peaks
+    right after the acquisition. At that peak at most three mutexes are held, and three only
+    when the one just acquired is the sibling this operation created by splitting (the
+    other two being the split child and its parent, or the root and `rootMutex`); every
+    later instant of the step holds a sub-multiset of the peak. -/
+theorem C10_peak_inside_step (P : Params K) (tree : Tree K V) (progs : List (List (COp K V)))
+    (c : Config K V) (hr : Reachable (Config.init P tree progs) c) (hd : c.dead = false)
+    (t : Nat) (th : Thread K V) (hth : c.threads[t]? = some th) (l : Lk) (k : Kont K V)
+    (hp : th.park = .want l k) (hk : k.isCoupled = true) (s0 : St K V) (h0 : s0.held = th.held) :
+    (s0.acq t l).held.length ≤ 3 ∧
+    ((s0.acq t l).held.length = 3 → k.waitsForFreshSibling = true) ∧
+    RelOnly t (s0.acq t l) (runThread c.P t th s0).2.1 := by
+  have hmem : th ∈ c.threads := List.mem_of_getElem? hth
+  obtain ⟨hh, hpre, hpl⟩ := reachable_ok _ c (init_ok P tree progs) hr hd th hmem
+  have hb := (C10_coupling_parked P tree progs c hr hd th hmem l k hp hk)
+  have hlen : (s0.acq t l).held.length = th.held.length + 1 := by simp [h0]
+  refine ⟨by omega, ?_, ?_⟩
+  · intro h3
+    have h2 : th.held.length = 2 := by omega
+    have hk2 : (kontHeld k).length = 2 := by rw [← hb.1.length_eq]; exact h2
+    cases k <;> simp_all [Kont.isCoupled, kontHeld, Kont.waitsForFreshSibling]
+  · have hnf : th.park ≠ .finished := by rw [hp]; simp
+    rcases runThread_rel c.P t th s0 hpl hnf with ⟨hrel, _⟩ | ⟨hst, _⟩
+    · rw [hp] at hrel; exact hrel
+    · rw [hp] at hst; simp at hst
+
 /-- the held sets of thread `t` after each of its lock events, replaying a chronological log -/
 def heldTrace (t : Nat) : List (Ev K V) → List Lk → List (List Lk)
   | [], _ => []
@@ -69,11 +101,10 @@ def heldTrace (t : Nat) : List (Ev K V) → List Lk → List (List Lk)
   | .rel t' l :: rest, h => if t' = t then (h.erase l) :: heldTrace t rest (h.erase l) else heldTrace t rest h
   | _ :: rest, h => heldTrace t rest h
 
-/-- FULL statement of C10 ("at every instant", i.e. also INSIDE a step, where a third
-    lock — the sibling just created by a split — is held between its acquisition and the
-    release of the split child), kept as a definition and not proved; the theorems above
-    prove the bound at every scheduling point, and the intra-step lock/unlock sequences are
-    pinned against the implementation by the event-log tie. -/
+/-- The same bound phrased on the event log (every prefix of every thread's lock events),
+    kept as a definition: `C10_peak_inside_step` proves it in the state-based form (peak
+    after the single acquisition of a step, releases only afterwards); the log-based form
+    additionally needs that the logged events mirror the held-list updates one to one. -/
 def C10_every_instant_statement : Prop :=
   ∀ (P : Params Nat) (tree : Tree Nat Nat) (progs : List (List (COp Nat Nat))) (c : Config Nat Nat),
     (∀ p ∈ progs, ∀ op ∈ p, match op with | .del _ => False | _ => True) →
@@ -85,3 +116,4 @@ end Gobptree.Conc
 #print axioms Gobptree.Conc.C10_coupling_parked
 #print axioms Gobptree.Conc.C10_callback_one_leaf
 #print axioms Gobptree.Conc.C10_resting_cursor
+#print axioms Gobptree.Conc.C10_peak_inside_step
